@@ -37,12 +37,13 @@ def batch_path_final_check(ctx, clause):
                    key='batch_path:final-node==root')
 
 
-def bls_aggregate_binding(ctx, clause):
-    """BlsSignature::aggregate: every aggregation coefficient binds the whole signature set:
+def bls_aggregate_binding(ctx, clause, fn_pat='mithril_stm::*::BlsSignature::aggregate', sig_param='p#2', label='BlsSignature::aggregate',
+                          key='bls_aggregate:coefficients', with_verify_args=True):
+    """BlsSignature::aggregate (and, since F14, batch_verify_aggregates): every coefficient binds the whole signature set:
     a transcript hasher absorbs every signature; each coefficient finalises a *clone* of that transcript
     extended by the index; the transcript is never reset; the same coefficients multiply keys and signatures."""
     R = ctx.report
-    f = ctx.try_fn(clause, 'mithril_stm::*::BlsSignature::aggregate')
+    f = ctx.try_fn(clause, fn_pat)
     if f is None:
         return
     body = f.body
@@ -64,8 +65,9 @@ def bls_aggregate_binding(ctx, clause):
         return out
 
     absorb = [c for c in upd if loop_body_entry(body, c.bb) is not None and len(c.args) > 1
-              and has(fn_origins(f, c.args[1], True), 'p#2') and not (receiver(c) & clone_locals)]
-    inst = 'BlsSignature::aggregate: coefficients = H(all signatures || index)'
+              and has(fn_origins(f, c.args[1], True), sig_param) and has(fn_origins(f, c.args[1], True), 'call:*BlsSignature::to_bytes')
+              and not (receiver(c) & clone_locals)]
+    inst = '%s: coefficients = H(all signatures || index)' % label
     problems = []
     if not absorb:
         problems.append('no hasher update absorbing every signature in a loop')
@@ -110,9 +112,11 @@ def bls_aggregate_binding(ctx, clause):
     else:
         problems.append('expected two multi-scalar multiplications (keys, signatures), found %d' % len(mults))
     if problems:
-        R.violation(clause, 'R5', inst, 'bls_aggregate:coefficients', '; '.join(problems), f.loc())
+        R.violation(clause, 'R5', inst, key, '; '.join(problems), f.loc())
     else:
         R.ok(clause, 'R5', inst, '%d absorb site(s), %d per-index finalize(s), no reset' % (len(absorb), len(per_index)), f.loc())
+    if not with_verify_args:
+        return
     # verify_aggregate: the pairing check is on the aggregate of exactly the given keys / signatures
     ctx.arg_origin(clause, 'mithril_stm::*::BlsSignature::verify_aggregate', 'mithril_stm::*::BlsSignature::aggregate', 0,
                    require=['p#2'], desc='(vks) <- vks')
